@@ -4,7 +4,7 @@ Line-protocol side of the transaction model (streams C03, C02, C32).
 A step line is `<query text> | <res> <chg> <body> [<stride> <offset>]` where the part after ` | ` is
 the observation hint written by the harness: result (`ok:<n>` / `err`), whether the observable state
 changed (0/1) and the run-length encoded kinds of the storage calls the step issued, WITHOUT the
-flushes (`w` write, `z` resize, `!` a failed call, `F` a failed flush).  From that the model predicts
+flushes (`w` write, `o` zero-length write, `z` resize, `!` a failed call, `F` a failed flush).  From that the model predicts
 where the flushes are, the log-empty flag of every crash point and the class of every (sampled)
 crash point.
 -/
@@ -96,6 +96,7 @@ def buildEvents (body : List Char) (cell : Nat) (fault : FaultMode) : List Ev ×
     | c :: rest =>
       if c = 'F' then go rest (i + 1) evs kinds
       else if fault.fails (i + 1) then go rest (i + 1) (Ev.fail :: evs) ('!' :: kinds)
+      else if c = 'o' then go rest (i + 1) (Ev.nop :: evs) ('o' :: kinds)
       else go rest (i + 1) (Ev.write (cell + i) 1 :: evs) ((if c = '!' then '?' else c) :: kinds)
   go body 0 [] []
 
